@@ -652,7 +652,7 @@ fn tcp_leg(src: &mut Src, ctx: &mut RunCtx, solo: &Arc<Solo>) -> RunResult {
 
 pub struct FileSinkCheck;
 
-const INITIAL: [&str; 6] = ["absent", "empty", "nonempty", "directory", "missing-parent", "nonempty-13-bytes"];
+const INITIAL: [&str; 7] = ["absent", "empty", "nonempty", "directory", "missing-parent", "nonempty-13-bytes", "dangling-symlink"];
 
 fn mode_of(i: usize) -> Mode {
     match i {
@@ -670,6 +670,7 @@ fn setup_initial(dir: &std::path::Path, state: usize) -> (std::path::PathBuf, Ve
         1 => std::fs::write(&path, b"").unwrap(),
         2 | 5 => std::fs::write(&path, &pre).unwrap(),
         3 => std::fs::create_dir(&path).unwrap(),
+        6 => std::os::unix::fs::symlink(dir.join("no-such-target"), &path).unwrap(),
         _ => {}
     }
     (path, if state == 2 || state == 5 { pre } else { vec![] })
@@ -683,7 +684,7 @@ impl Check for FileSinkCheck {
         "fault_enumeration"
     }
     fn rule(&self) -> String {
-        "enumerated part: modes {Create, Overwrite, Append} x initial states {absent, empty, non-empty (12 bytes), non-empty (13 bytes: not a whole number of samples), directory, missing parent directory} x {FileSink<u8>, NoCopyFileSink, FileSink<Float>} = 54 cells against the documented truth table (create fails iff the file exists; overwrite leaves exactly the new data; append keeps the old content (also what another writer appended after the sink was opened) and adds, creating the file if absent; directories and missing parents are errors). \
+        "enumerated part: modes {Create, Overwrite, Append} x initial states {absent, empty, non-empty (12 bytes), non-empty (13 bytes: not a whole number of samples), directory, missing parent directory, dangling symbolic link} x {FileSink<u8>, NoCopyFileSink, FileSink<Float>} = 63 cells against the documented truth table (create fails iff the file exists; overwrite leaves exactly the new data; append keeps the old content (also what another writer appended after the sink was opened) and adds, creating the file if absent; directories and missing parents are errors). \
          seeded part: a child process (re-exec of the simulator) streams seeded data through the sink under a seeded feed schedule (4-8 KiB streams; one run in 30 a default-size stream fed more than 1 MiB); the fault plan kills it at the N-th write() on the sink's file after a torn length k (every write index and torn-length class is reachable), or injects short writes / one EINTR without a crash. After each work() the child records how many samples were consumed (acknowledged). Parent oracle: the file is a prefix of pre-existing content + serialised stream and holds at least the acknowledged samples; without a crash it is complete. \
          non-trivial = the child was killed inside a write that followed at least one acknowledged work(); distinct = (mode, sink, write index, torn length, data size)".into()
     }
@@ -703,14 +704,14 @@ impl Check for FileSinkCheck {
         }
     }
     fn fixed_cases(&self) -> u64 {
-        54
+        63
     }
     fn required(&self, _tier: Tier) -> Vec<&'static str> {
         vec!["fault:crash_at_write", "fault:kill_between_calls", "fault:torn_write", "fault:short_write", "fault:eintr_write", "fault:write_error", "crash_after_ack", "mode_cells"]
     }
     fn run(&self, src: &mut Src, ctx: &mut RunCtx) -> RunResult {
-        let sel = src.draw(55);
-        let r = if sel < 54 { mode_cell(sel as usize, ctx) } else { crash_run(src, ctx) };
+        let sel = src.draw(64);
+        let r = if sel < 63 { mode_cell(sel as usize, ctx) } else { crash_run(src, ctx) };
         for v in &src.log {
             ctx.hash.add(*v);
         }
@@ -723,9 +724,9 @@ impl Check for FileSinkCheck {
 
 fn mode_cell(cell: usize, ctx: &mut RunCtx) -> RunResult {
     let mode = cell % 3;
-    let state = (cell / 3) % 6;
-    let nocopy = cell / 18 == 1;
-    let float = cell / 18 == 2;
+    let state = (cell / 3) % 7;
+    let nocopy = cell / 21 == 1;
+    let float = cell / 21 == 2;
     ctx.count("mode_cells");
     ctx.nontrivial = true;
     ctx.hash.add(cell as u64 ^ 0xc17);
@@ -817,6 +818,20 @@ fn mode_cell(cell: usize, ctx: &mut RunCtx) -> RunResult {
     } else {
         new_data.clone()
     };
+    // A name that exists as a symbolic link to nothing: Create must refuse it
+    // (the name exists) and create nothing through it; what the other modes do
+    // with it is not specified here (no panic is all that is asked).
+    if state == 6 {
+        if mode == 0 {
+            if ctor_ok {
+                return Err(Violation::new("C17:mode-should-fail", format!("{desc}: opened without error (the link's target was {})", if dir.path().join("no-such-target").exists() { "created" } else { "not created" })));
+            }
+            if dir.path().join("no-such-target").exists() {
+                return Err(Violation::new("C17:mode-clobbered", format!("{desc}: refused, but the link's target was created")));
+            }
+        }
+        return Ok(());
+    }
     // Truth table.
     let exists = matches!(state, 1 | 2 | 5);
     let must_fail = state == 3 || state == 4 || (mode == 0 && exists);
@@ -1446,7 +1461,7 @@ fn mapping_history(src: &mut Src, ctx: &mut RunCtx) -> RunResult {
                     4 => 2 * 4096,
                     _ => 4096,
                 };
-                let ty = src.below(4); // 0,1: u8; 2: u32; 3: [u8;3]
+                let ty = src.below(5); // 0,1: u8; 2: u32; 3: [u8;3]; 4: ()
                 let this_fault = if creations == fault_at_creation { fault } else { 0 };
                 creations += 1;
                 let other_thread = src.chance(1, 4) && this_fault < 4;
@@ -1521,6 +1536,13 @@ fn mapping_history(src: &mut Src, ctx: &mut RunCtx) -> RunResult {
                             Ok(Err(e)) => Err(e.to_string()),
                             Err(p) => Err(format!("PANIC {} at {}", p.msg, p.loc)),
                         },
+                        4 => match catch(|| Buffer::<()>::new(size)) {
+                            // An element type of size 0 divides nothing: an
+                            // error value, like any other unusable set-up.
+                            Ok(Ok(_b)) => Err("ACCEPTED-NONDIVIDING".into()),
+                            Ok(Err(e)) => Err(e.to_string()),
+                            Err(p) => Err(format!("PANIC {} at {}", p.msg, p.loc)),
+                        },
                         3 => match catch(|| Buffer::<[u8; 3]>::new(size)) {
                             Ok(Ok(_b)) => Err("ACCEPTED-NONDIVIDING".into()),
                             Ok(Err(e)) => Err(e.to_string()),
@@ -1540,7 +1562,7 @@ fn mapping_history(src: &mut Src, ctx: &mut RunCtx) -> RunResult {
                     }
                 }
                 sys::set_plan(IoPlan::default());
-                let valid = size != 0 && size % 4096 == 0 && ty != 3;
+                let valid = size != 0 && size % 4096 == 0 && ty != 3 && ty != 4;
                 match made {
                     Ok(Some(b)) => {
                         if !valid || this_fault >= 4 {
@@ -1564,7 +1586,7 @@ fn mapping_history(src: &mut Src, ctx: &mut RunCtx) -> RunResult {
                         }
                         if e == "ACCEPTED-NONDIVIDING" {
                             if size != 0 && size % 4096 == 0 {
-                                return Err(Violation::new("C18:nondividing-accepted", format!("op {op}: Buffer::<[u8;3]>::new({size}) succeeded")));
+                                return Err(Violation::new("C18:nondividing-accepted", format!("op {op}: Buffer::new({size}) for an element type whose size does not divide it ([u8;3] or a zero-sized type) succeeded")));
                             }
                         } else if valid && this_fault < 4 {
                             return Err(Violation::new("C18:valid-refused", format!("op {op}: Buffer::new({size}) failed without a fault: {e}")));
